@@ -49,6 +49,9 @@ var c03Lib = []string{
 	"mkgen = (p, q) -> () -> {\nyield p\nyield q\nyield p + q\n}",
 	"useg = (a, k) -> {\ng = mkgen(a, a * 2)\nh = adder(k)\ns = 0\nfor v <- g() s = s + h(v)\ns\n}",
 	"shared = (n) -> {\nstop = false\nlim = n\ngg = () -> {\ni = 0\nwhile !stop {\nyield i + lim\ni = i + 1\n}\n}\nr = []\nfor v <- gg() {\nr = r + [v]\nlim = lim + 10\nif #r >= 3 stop = true\n}\nr\n}",
+	"geni = (k) -> {\ni = 0\nwhile true {\nyield () -> i + k\ni = i + 1\n}\n}",
+	"firstc = (k, skip) -> {\nfor f <- geni(k) {\nif skip <= 0 return f\nskip = skip - 1\n}\n}",
+	"abandon = (k, skip, n) -> {\nc = firstc(k, skip)\ns = 0\nfor v, w <- fromto(0, n), fromto(5, 50) s = s + v * w\nfor u <- fromto(0, 2) for x <- fromto(0, 2) s = s + u + x\n[c(), s, c()]\n}",
 	"pick = (n) -> {\nif n > 0 a = n * 3\nb = n + 1\nif n > 1 c = n\n[a, b, c]\n}",
 	"map = (f, it) -> for e <- it() yield f(e)",
 	"itclos = (k, n) -> {\ns = 0\nfor v <- map((x) -> x + k, () -> fromto(0, n)) s = s + v\ns\n}",
@@ -56,8 +59,11 @@ var c03Lib = []string{
 }
 
 func c03Calls(t *rapid.T) (call, other string, heavy bool) {
-	kind := rapid.IntRange(0, 20).Draw(t, "call")
-	if kind > 17 {
+	kind := rapid.IntRange(0, 22).Draw(t, "call")
+	if kind > 20 {
+		kind = 18 // a closure that outlives the abandoned generator it was made in, across later loops
+	}
+	if kind > 18 {
 		kind = 15 // functions that read locals they may not have assigned see whatever memory they land on
 	}
 	mk := func() (string, bool) {
@@ -92,6 +98,8 @@ func c03Calls(t *rapid.T) (call, other string, heavy bool) {
 			return fmt.Sprintf("itclos(%d, %d)", n(20), 1+n(4)), true
 		case 13:
 			return fmt.Sprintf("itpick(%d, %d)", n(20), n(20)), true
+		case 18:
+			return fmt.Sprintf("abandon(%d, %d, %d)", n(20), n(3), n(6)), true
 		case 16:
 			return fmt.Sprintf("useg(%d, %d)", n(20), n(200)), true
 		case 17:
